@@ -42,16 +42,51 @@ Proof.
   reflexivity.
 Qed.
 
+(* first pass of FindFreeCANMsgIndex: the busy slot that already holds the key *)
+Definition ffk_match (s:slot) (pgn src dst:Z) (tp:bool) : bool :=
+  negb (s_free s) && (s_pgn s =? pgn) && (s_src s =? src) && (s_dst s =? dst) && Bool.eqb (s_tp s) tp.
+Lemma ff_key_spec pgn src dst tp : forall slots i0,
+  let i := ff_key slots pgn src dst tp i0 in
+  i0 <= i <= i0 + Z.of_nat (length slots) /\
+  (i < i0 + Z.of_nat (length slots) -> ffk_match (nth (Z.to_nat (i - i0)) slots slot0) pgn src dst tp = true) /\
+  (forall k, (k < Z.to_nat (i - i0))%nat -> ffk_match (nth k slots slot0) pgn src dst tp = false).
+Proof.
+  induction slots as [|s slots IH]; intros i0; cbn [ff_key length].
+  - cbv zeta. rewrite Z.sub_diag. repeat split; try lia.
+  - fold (ffk_match s pgn src dst tp). destruct (ffk_match s pgn src dst tp) eqn:E.
+    + cbv zeta. rewrite Z.sub_diag. repeat split; try lia. intros _. exact E.
+    + specialize (IH (i0 + 1)). cbv zeta in *. destruct IH as (A & B & C). set (i := ff_key slots pgn src dst tp (i0 + 1)) in *.
+      assert (Hn : Z.to_nat (i - i0) = S (Z.to_nat (i - (i0 + 1)))) by lia.
+      repeat split; try lia.
+      * intros Hlt. rewrite Hn. cbn [nth]. apply B. lia.
+      * intros k Hk. rewrite Hn in Hk. destruct k as [|k]; [exact E|]. cbn [nth]. apply C. lia.
+Qed.
+Lemma ff_match_ffk s pgn src dst tp : ff_match s pgn src dst tp = false -> ffk_match s pgn src dst tp = false.
+Proof.
+  unfold ff_match, ffk_match. intros H. apply orb_false_iff in H. destruct H as [F M]. rewrite F. cbn [negb andb].
+  rewrite <- !andb_assoc in *. exact M.
+Qed.
+Lemma ffk_ff_match s pgn src dst tp : ffk_match s pgn src dst tp = true -> ff_match s pgn src dst tp = true.
+Proof.
+  unfold ff_match, ffk_match. intros H. rewrite <- !andb_assoc in H. apply andb_true_iff in H. destruct H as [_ H]. rewrite <- !andb_assoc. rewrite H. apply orb_true_r.
+Qed.
+
 Lemma find_free_slot_char r pgn src dst tp slots1 j :
   find_free_slot r pgn src dst tp = (slots1, j) ->
   0 <= j <= nslots r /\ length slots1 = length (r_slots r) /\
-  ( (slots1 = r_slots r /\ (forall k, (k < Z.to_nat j)%nat -> ff_match (nth k (r_slots r) slot0) pgn src dst tp = false) /\
+  ( (slots1 = r_slots r /\ (forall k, (k < Z.to_nat j)%nat -> ffk_match (nth k (r_slots r) slot0) pgn src dst tp = false) /\
      (j < nslots r -> ff_match (znth (r_slots r) j slot0) pgn src dst tp = true))
     \/ (j < nslots r /\ slots1 = zset (r_slots r) j (free_slot (znth (r_slots r) j slot0)) /\
         (forall k, (k < length (r_slots r))%nat -> ff_match (nth k (r_slots r) slot0) pgn src dst tp = false) /\
         has_elapsed (s_time (znth (r_slots r) j slot0)) c_Max_N2kMsgBuf_Time (now32 r) = true) ).
 Proof.
-  unfold find_free_slot. intros H. destruct (ff_scan (r_slots r) pgn src dst tp 0 (nslots r) (now32 r)) as [[i oi] ot] eqn:S.
+  unfold find_free_slot. intros H. cbv zeta in H.
+  pose proof (ff_key_spec pgn src dst tp (r_slots r) 0) as KS. cbv zeta in KS. rewrite Z.sub_0_r, Z.add_0_l in KS. fold (nslots r) in KS. destruct KS as (K1 & K2 & K3).
+  destruct (ff_key (r_slots r) pgn src dst tp 0 <? nslots r) eqn:EK.
+  { apply Z.ltb_lt in EK. injection H as <- <-. split; [lia|]. split; [reflexivity|]. left. split; [reflexivity|]. split; [exact K3|].
+    intros _. apply ffk_ff_match. apply K2. exact EK. }
+  apply Z.ltb_ge in EK.
+  destruct (ff_scan (r_slots r) pgn src dst tp 0 (nslots r) (now32 r)) as [[i oi] ot] eqn:S.
   apply ff_scan_char in S. destruct S as (A & B & C & D). rewrite Z.sub_0_r, Z.add_0_l in *. fold (nslots r) in *.
   destruct ((i =? nslots r) && has_elapsed ot c_Max_N2kMsgBuf_Time (now32 r)) eqn:E.
   - apply andb_true_iff in E. destruct E as [Ei Ee]. apply Z.eqb_eq in Ei. subst i. injection H as <- <-.
@@ -59,9 +94,9 @@ Proof.
     + unfold now32 in Ee. rewrite has_elapsed_self in Ee. discriminate.
     + split; [lia|]. split; [apply zset_length|]. right. split; [lia|]. split; [reflexivity|]. split.
       * intros k Hk. apply B. unfold nslots. lia. * unfold znth. rewrite <- D2. exact Ee.
-  - injection H as <- <-. split; [lia|]. split; [reflexivity|]. left. split; [reflexivity|]. split; [exact B|]. intros Hlt. apply C. exact Hlt.
+  - injection H as <- <-. split; [lia|]. split; [reflexivity|]. left. split; [reflexivity|]. split; [|intros Hlt; apply C; exact Hlt].
+    intros k Hk. apply ff_match_ffk. apply B. exact Hk.
 Qed.
-
 (* ---------------- what other traffic may do to the table, seen from one key ---------------- *)
 Section Key.
 Variables (pgn src dst now : Z).
@@ -136,6 +171,13 @@ Proof.
   - left. rewrite znth_zset_eq by (unfold nslots in *; lia). reflexivity.
 Qed.
 
+Lemma tstep_map_free pgn src dst now (cnd:slot -> bool) l : pgn <> 0 -> (forall s, cnd s = true -> s_tp s = true) ->
+  tstep pgn src dst now l (map (fun s => if cnd s then free_slot s else s) l).
+Proof.
+  intros Hnz Hc. split; [apply map_length|]. intros k Hk. rewrite (nth_map_lt _ l k slot0 slot0 Hk).
+  destruct (cnd (nth k l slot0)) eqn:E; [|left; reflexivity]. apply okstep_free; auto. apply not_protected_tp. apply Hc. exact E.
+Qed.
+
 Ltac okstep_tac Hnz :=
   right; split;
   [ first [ apply not_protected_tp; reflexivity | assumption
@@ -150,10 +192,14 @@ Lemma handle_tp_tstep pgn src dst r pgn' src' dst' len buf h r1 ev idx : pgn <> 
 Proof.
   intros Hnz H. unfold handle_tp in H. revert H. crack; intros H; injection H as E0 E1 E2 E3; subst h ev idx; subst r1.
   all: match goal with |- context [tstep _ _ _ _ (r_slots ?rr) _] => pose proof (find_tp_slot_spec src' dst' (r_slots rr) 0) as FT; cbv zeta in FT; rewrite Z.sub_0_r, Z.add_0_l in FT end.
-  all: try match goal with E: find_free_slot ?rr _ _ _ _ = (?l, ?z) |- _ =>
-         pose proof (find_free_slot_tstep pgn src dst _ _ _ _ _ _ _ Hnz E) as TS1; pose proof (find_free_slot_tp_vul _ _ _ _ _ _ E) as VUL;
-         destruct (find_free_slot_char _ _ _ _ _ _ _ E) as (Z0 & L1 & _) end.
-  all: try match goal with E : (?z =? nslots ?rr) = false |- _ => apply Z.eqb_neq in E; specialize (VUL ltac:(lia)) end.
+  all: try match goal with E: find_free_slot (with_slots ?r0 ?l0) _ _ _ _ = (?l, ?z) |- _ =>
+         pose proof (find_free_slot_tstep pgn src dst _ _ _ _ _ _ _ Hnz E) as TS1'; pose proof (find_free_slot_tp_vul _ _ _ _ _ _ E) as VUL;
+         destruct (find_free_slot_char _ _ _ _ _ _ _ E) as (Z0 & L1 & _);
+         assert (TS0 : tstep pgn src dst (now32 r0) (r_slots r0) l0)
+           by (apply tstep_map_free; [exact Hnz | intros s0 X; rewrite !andb_true_iff in X; tauto]);
+         pose proof (tstep_trans _ _ _ _ _ _ _ TS0 TS1') as TS1;
+         unfold nslots in Z0, VUL; cbn [r_slots with_slots] in Z0, VUL, L1; rewrite map_length in Z0, VUL, L1 end.
+  all: try match goal with E : (?z =? nslots ?rr) = false |- _ => apply Z.eqb_neq in E; unfold nslots in E; specialize (VUL ltac:(lia)) end.
   all: try match goal with E : (find_tp_slot ?sl ?a ?b 0 <? nslots ?rr) = true |- _ => apply Z.ltb_lt in E; unfold nslots in E; pose proof (proj2 FT E) as TPS end.
   all: split_rx; norm_rx.
   all: (split; [|split; [repeat split; try congruence; try (autorewrite with rxs in *; prj; congruence)|]]).
@@ -161,6 +207,7 @@ Proof.
   all: try apply tstep_refl; try exact TS1.
   all: try (eapply tstep_trans; [exact TS1|]; apply tstep_zset; okstep_tac Hnz).
   all: try (apply tstep_zset; right; split; [apply not_protected_tp; exact TPS | first [intros _; apply key_match_tp; reflexivity | intros _; apply key_match_free; exact Hnz]]).
+  Show.
 Qed.
 
 Lemma handle_tp_false r pgn src dst len buf r1 ev idx :
